@@ -45,8 +45,8 @@ theorem assignment_reaches_each_watcher_once (c : Cfg) (f : Nat) (w : World) (p 
   | zero => simp [run] at hok
   | succ f =>
     -- facts about the two sub-calls: the dispatch loop (in the world where the value is stored) and the flush
-    have hfl := flags c f (.dispatch (sortByPrec (regsFor w p)) { name := p, old := getVal w p, new := v }) { w with vals := w.vals.set p v }
-    have hsh := dispatch_shape c { name := p, old := getVal w p, new := v } (sortByPrec (regsFor w p)) f { w with vals := w.vals.set p v } hb
+    have hfl := flags c f (.dispatch (sortByPrec (regsFor w p)) { name := p, old := getVal w p, new := v }) { w with vals := w.vals.set p v, owned := p :: w.owned }
+    have hsh := dispatch_shape c { name := p, old := getVal w p, new := v } (sortByPrec (regsFor w p)) f { w with vals := w.vals.set p v, owned := p :: w.owned } hb
     have hff := fun w2 => flush_sigs_not_direct (flush_only_flush_calls c f .flush w2 (Or.inl rfl))
     have hexp : expectedFor w p (getVal w p) v =
         (sortByPrec (regsFor w p)).filter (fun wt => passes w.trigger wt { name := p, old := getVal w p, new := v }) := rfl
@@ -60,7 +60,7 @@ theorem assignment_reaches_each_watcher_once (c : Cfg) (f : Nat) (w : World) (p 
         have : regsFor w p = [] := List.isEmpty_iff.1 hempty
         simp [expectedFor, this, sortByPrec]
       · generalize hd : run c f (.dispatch (sortByPrec (regsFor w p)) { name := p, old := getVal w p, new := v })
-            { w with vals := w.vals.set p v } = d at hrun hfl hsh
+            { w with vals := w.vals.set p v, owned := p :: w.owned } = d at hrun hfl hsh
         obtain ⟨r1, w2, o1⟩ := d
         simp only at hrun hfl hsh
         cases r1 with
@@ -179,9 +179,9 @@ theorem first_watcher_sees_the_new_value (c : Cfg) (f : Nat) (w : World) (p : Na
   | zero => simp [run] at h
   | succ f =>
     -- the dispatch loop starts in the world where the value is stored, and its log starts with the first callback
-    have hd := dispatch_head_item c f { w with vals := w.vals.set p v } wt rest { name := p, old := getVal w p, new := v } hb hp
+    have hd := dispatch_head_item c f { w with vals := w.vals.set p v, owned := p :: w.owned } wt rest { name := p, old := getVal w p, new := v } hb hp
     simp only [run, hv, Bool.not_true, Bool.false_eq_true, if_false, hne, hws] at h ⊢
-    generalize run c f (.dispatch (wt :: rest) { name := p, old := getVal w p, new := v }) { w with vals := w.vals.set p v } = d at h hd ⊢
+    generalize run c f (.dispatch (wt :: rest) { name := p, old := getVal w p, new := v }) { w with vals := w.vals.set p v, owned := p :: w.owned } = d at h hd ⊢
     obtain ⟨r1, w2, o1⟩ := d
     cases r1 with
     | oof => simp at h
@@ -203,7 +203,7 @@ theorem first_watcher_sees_the_new_value (c : Cfg) (f : Nat) (w : World) (p : Na
 /-- **C03 (the object already shows the new value).**  The value is installed before the first
 watcher is considered: the dispatch loop of `p := v` starts in a world where `p` holds `v`. -/
 theorem value_installed_before_dispatch (w : World) (p : Nat) (v : Int) (hp : p < w.vals.length) :
-    getVal { w with vals := w.vals.set p v } p = v := by
+    getVal { w with vals := w.vals.set p v, owned := p :: w.owned } p = v := by
   simp [getVal, List.getD, hp]
 
 /-- **C03 (skipped only when equal).**  Outside `trigger`, a watcher registered for `p` is left
